@@ -249,3 +249,35 @@ def root_tip_distances(tree):
 
 def pairwise_tip_distances(tree):
     return dict((tuple(sorted(k)), v[0]) for k, v in S.path_lengths(tree).items())
+
+
+def score_conventions(split_set, exp, L, rooted, use_log, include_external):
+    """credibility score of one tree (its set of splits) from exact frequencies `exp`,
+    under the four readings of "internal split" the statement leaves open:
+      [0] root edge counted, all-but-one clades counted   [1] root counted, all-but-one not
+      [2] root not counted, all-but-one counted            [3] neither
+    (for unrooted samples [0]==[1] and [2]==[3]).  A reported score list is accepted
+    when it matches one column for every tree."""
+    import math
+    tot = [0.0, 0.0, 0.0, 0.0]
+    root = split_of_clade(L, L, rooted)
+    for s in split_set:
+        f = float(exp[s])
+        v = (math.log(f) if f else 0.0) if use_log else f
+        if include_external:
+            for cv in range(4):
+                tot[cv] += v
+        elif s == root:
+            tot[0] += v
+            tot[1] += v
+        elif not is_trivial(s, L, rooted):
+            tot[0] += v
+            tot[2] += v
+            if not rooted or len(s) < len(L) - 1:
+                tot[1] += v
+                tot[3] += v
+    return tot
+
+
+def scores_match(scores, per_tree_conventions):
+    return any(all(approx(a, b[cv]) for a, b in zip(scores, per_tree_conventions)) for cv in range(4))
